@@ -1,6 +1,6 @@
 #!/bin/bash
 # tools/regress.sh : run every quick check on the unchanged tree; one line each; non-zero exit if any check alarms or errors
-cd /verif; rc=0
+cd "$(dirname "$0")/.."; rc=0
 for i in 01 02 03 04 05 06 07 08 09 10 11 12 13 14 15 16 17 18 19 20; do
   out=$(./check C$i --tier quick 2>&1); r=$?
   echo "$out" | tail -1 | cut -c1-210
